@@ -55,6 +55,10 @@ def gen_rounds(seed, tier, run):
                 out.append(f"argsort {arr([n], l)} n s{hexs(NAMES[k].upper())}")
         if n <= 12:
             out.append(f"unique {arr([n], l)} n")
+        if 1 <= n <= 70 or n in (300, 2000):
+            # extreme-position queries: the FIRST position of the largest / smallest element (lanes with ties included)
+            out.append(f"argmax@i64 {arr([n], l)} n z0")
+            out.append(f"argmin@i64 {arr([n], l)} n z0")
     for name in ["quicksort", "MergeSort", "HEAPSORT", "Stable", "stable ", "bubble", "", "quick"]:
         out.append(f"sort a5:3,1,2,1,0 n s{hexs(name)}")
         out.append(f"argsort a5:3,1,2,1,0 z0 s{hexs(name)}")
@@ -66,6 +70,8 @@ def gen_rounds(seed, tier, run):
             k = rng.choice(KINDS)
             out.append(f"sort {arr(sh, es)} z{ax} {k}")
             out.append(f"argsort {arr(sh, es)} z{ax} {k}")
+            out.append(f"argmax@i32 {arr(sh, [e % 3 for e in es])} z{ax} z{rng.randint(0, 2)}")
+            out.append(f"argmin@i32 {arr(sh, [e % 3 for e in es])} z{ax} z{rng.randint(0, 2)}")
         out.append(f"sort@str {arr(sh, es)} n z0")
     for L in (40, 64, 100):
         sh = [3, L]
